@@ -525,7 +525,7 @@ def run(ctx):
 
 
 MANIFEST_ENTRY = {
-    "technique": "static analysis: abstract evaluation (rules/absint.py) of create_locales_enum to token text for a locale list with regional, right-to-left and non-canonically spelled names, the generated tables read back one by one; evaluation of LocaleVisitor (associated functions of the locale type are opaque values: anything but from_str + default is visible in the result); the default-first clause of C19.R0 for the list the enum is generated from; MIR return-value summaries (py/mirsum.py) of every ScopedLocale forwarder; structural syn rule as fallback",
+    "technique": "static analysis: abstract evaluation (rules/absint.py) of create_locales_enum to token text for a locale list with regional, right-to-left and non-canonically spelled names, the generated tables read back one by one; evaluation of LocaleVisitor (associated functions of the locale type are opaque values: anything but from_str + default is visible in the result); the default-first clause of C19.R0 for the list the enum is generated from; MIR return-value summaries (py/mirsum.py) of every ScopedLocale forwarder; structural syn rule as fallback; MIR def-chain rule: create_locales_enum receives the configuration's `locales` field itself",
     "level_text": "Finite abstract evaluation of the generator: each generated table (as_str, from_str, ICU constant, direction, get_all, serde / Display) must pair a variant with its own configured name, from_str must be the exact inverse with an Err(()) fallback. The forwarders of ScopedLocale are decided from MIR summaries. No macro expansion is run.",
     "level_note": "Trusted: quote!/syn, icu locale!(), leptos-use FromToStringCodec. Not decided: ICU parsing of a concrete name, CLDR direction data.",
 }
